@@ -83,16 +83,28 @@ let run (args : (string * string) list) : string =
    | Some xop, Some xsrc ->
      let src = List.map (List.map n_of_int) (lists_of_string xsrc) in
      let nl l = List.map n_of_int (ints_of_string l) in
+     (* the set-theoretic specification [xop_spec] costs about n^2 * arcs list look-ups; on
+        larger graphs the expected graph is computed with the pipeline model [run_xop]
+        (insertion sort as the sorter, one partition), which theorem C09_run_xop (with
+        C09_ksort_ok) proves equal to [xop_spec] on every well-formed input *)
+     let nsrc = List.length src in
+     let asrc = List.fold_left (fun a l -> a + List.length l) 0 src in
+     let spec op =
+       if nsrc * nsrc * (asrc + 1) <= 2_000_000 then Some (Model.XformM.xop_spec op src)
+       else match Model.XformM.run_xop Model.XformM.ksort Model.XformM.ksortd op false
+                    (nat_of_int 1) [n_of_int 0; n_of_int nsrc] [nat_of_int 0] src with
+         | (Some e, _) -> Some e
+         | (None, _) -> Some (Model.XformM.xop_spec op src) in
      let expected =
        match String.split_on_char ':' xop with
        | ["id"] -> Some src
-       | ["transpose"] -> Some (Model.XformM.xop_spec Model.XformM.XTranspose src)
-       | ["symm"] -> Some (Model.XformM.xop_spec (Model.XformM.XSymm false) src)
-       | ["symmnl"] -> Some (Model.XformM.xop_spec (Model.XformM.XSymm true) src)
-       | ["perm"; l] -> Some (Model.XformM.xop_spec (Model.XformM.XPermute (nl l)) src)
-       | ["perm"] -> Some (Model.XformM.xop_spec (Model.XformM.XPermute []) src)
-       | ["map"; m; l] -> Some (Model.XformM.xop_spec (Model.XformM.XMap (nl l, n_of_int (int_of_string m))) src)
-       | ["map"; m] -> Some (Model.XformM.xop_spec (Model.XformM.XMap ([], n_of_int (int_of_string m))) src)
+       | ["transpose"] -> spec Model.XformM.XTranspose
+       | ["symm"] -> spec (Model.XformM.XSymm false)
+       | ["symmnl"] -> spec (Model.XformM.XSymm true)
+       | ["perm"; l] -> spec (Model.XformM.XPermute (nl l))
+       | ["perm"] -> spec (Model.XformM.XPermute [])
+       | ["map"; m; l] -> spec (Model.XformM.XMap (nl l, n_of_int (int_of_string m)))
+       | ["map"; m] -> spec (Model.XformM.XMap ([], n_of_int (int_of_string m)))
        | _ -> None in
      (match expected with
       | Some e -> add "xspec" (ok (e = g))
